@@ -460,7 +460,7 @@ class TSQLParser(parser.Parser):
         ),
     }
 
-    SET_OP_MODIFIERS = {"offset"}
+    SET_OP_MODIFIERS = ("offset",)
 
     ODBC_DATETIME_LITERALS = {
         "d": exp.Date,
